@@ -275,6 +275,17 @@ def convex_hull(
         validate=False,
     )
 
+    # qhull can return two coincident input points as separate vertices
+    # joined by zero area faces: once the vertices are merged those faces
+    # reference the same vertex twice, they are a doubled edge rather than
+    # a triangle and would make every edge they touch non-manifold
+    distinct = (
+        (convex.faces[:, 0] != convex.faces[:, 1])
+        & (convex.faces[:, 1] != convex.faces[:, 2])
+        & (convex.faces[:, 2] != convex.faces[:, 0])
+    )
+    convex.update_faces(distinct)
+
     # we did the gross case above, but sometimes precision issues
     # leave some faces backwards anyway
     # this call will exit early if the winding is consistent
